@@ -25,7 +25,8 @@ META = {
         "the routing of every section match through SecUnpacker into one "
         "tract per element. Decides these clauses, not the expansion of a "
         "concrete list."
-        " Also: SecFinder takes over the SecUnpacker's flags, find_sec and construct_tracts walk the unpacked list unfiltered, both unpackers derive found_through from thru_rightmost alone."),
+        " Also: SecFinder takes over the SecUnpacker's flags, find_sec and construct_tracts walk the unpacked list unfiltered, both unpackers derive found_through from thru_rightmost alone."
+        ' Round 7: no de-duplication idiom (list(dict.fromkeys(..)), sorted(set(..))) in the parse path; no Twp/Rge pattern fires inside a section list followed by an E/W aliquot; result caches restore everything a miss sets.'),
     'families': ['RX-LANG', 'RX-GROUPS', 'RANGE', 'SIB', 'PAIR', 'ROUTE', 'FORWARD', 'DEADPARAM', 'SIB-DEFAULTS'],
 }
 
